@@ -57,9 +57,11 @@ func runC19(ctx *Ctx) {
 	if codec == nil {
 		return
 	}
-	vectors := [][5]int{{1, 1, 1, 1, 1}, {2, 2, 2, 2, 2}, {2, 1, 0, 1, 2}, {2, 2, 0, 0, 0}}
+	// every procedure kind also appears as the LAST procedure of some vector: a fault swallowed at the very end of a
+	// conversation is not masked by the next procedure's write failing
+	vectors := [][5]int{{1, 1, 1, 1, 1}, {2, 2, 2, 2, 2}, {2, 1, 0, 1, 2}, {2, 2, 0, 0, 0}, {2, 0, 0, 0, 0}, {1, 1, 1, 0, 0}, {1, 1, 0, 1, 0}, {1, 0, 0, 0, 1}}
 	if ctx.Thorough {
-		vectors = append(vectors, [5]int{3, 3, 3, 3, 3}, [5]int{1, 0, 0, 0, 1}, [5]int{3, 1, 1, 0, 2})
+		vectors = append(vectors, [5]int{3, 3, 3, 3, 3}, [5]int{3, 1, 1, 0, 2}, [5]int{3, 0, 0, 0, 0}, [5]int{2, 2, 2, 0, 0}, [5]int{2, 2, 0, 2, 0})
 	}
 	kinds := []string{"close", "garbage-ff", "garbage-00", "truncated"}
 	_, acfg := n2config(explore.Replay(nil))
